@@ -16,12 +16,11 @@ import (
 // CR-terminated reply, then the transparent stream) that keeps its own
 // read-ahead, or one of the hostile behaviours the property names.
 type serverModel struct {
-	r    *run
+	s    *sess
 	spec dialSpec
 
 	stop   chan struct{} // closed by the harness: give up
 	logged chan struct{} // closed when the password line was read
-	both   chan struct{}
 	wrDone chan struct{}
 	done   chan struct{}
 
@@ -35,8 +34,8 @@ type serverModel struct {
 	wrErr    error
 }
 
-func newServerModel(r *run, spec dialSpec) *serverModel {
-	return &serverModel{r: r, spec: spec, stop: make(chan struct{}), logged: make(chan struct{}), wrDone: make(chan struct{}), done: make(chan struct{})}
+func newServerModel(s *sess, spec dialSpec) *serverModel {
+	return &serverModel{s: s, spec: spec, stop: make(chan struct{}), logged: make(chan struct{}), wrDone: make(chan struct{}), done: make(chan struct{})}
 }
 
 func (m *serverModel) isLogged() bool {
@@ -50,7 +49,7 @@ func (m *serverModel) isLogged() bool {
 
 // wait blocks until the model's goroutines have ended (if it ever ran).
 func (m *serverModel) wait() {
-	if len(m.r.w.links) == 0 {
+	if len(m.s.w.links) == 0 {
 		return
 	}
 	waitCh(endBudget, m.done)
@@ -90,8 +89,8 @@ func (m *serverModel) readLine(bufs []int, k *int) ([]byte, bool) {
 }
 
 func (m *serverModel) pause(i int) {
-	if d := us(core.TapeAt(m.r.p.Server.PromptDelayUs, i, 0)); d > 0 {
-		sleepU(m.r.sim, d)
+	if d := us(core.TapeAt(m.s.r.p.Server.PromptDelayUs, i, 0)); d > 0 {
+		sleepU(m.s.r.sim, d)
 	}
 }
 
@@ -99,7 +98,7 @@ func (m *serverModel) pause(i int) {
 // (reading the client's reply between the prompts) and reports whether it got
 // that far.
 func (m *serverModel) promptPrefix(off int, k *int) bool {
-	bufs := m.r.p.C2S.ReadBuf
+	bufs := m.s.sp.C2S.ReadBuf
 	m.pause(0)
 	if off <= len(prompt1) {
 		return m.write([]byte(prompt1[:off]))
@@ -119,8 +118,8 @@ func (m *serverModel) promptPrefix(off int, k *int) bool {
 func (m *serverModel) serve(c *pipe.End, _ *pipe.Link) {
 	defer close(m.done)
 	m.end = c
-	r, sim, p := m.r, m.r.sim, m.r.p
-	sv := p.Server
+	s, sim, p := m.s, m.s.r.sim, m.s.sp
+	sv := s.r.p.Server
 	sim.Logf("server model %q starts", sv.Kind)
 	k := 0
 	total := len(prompt1) + len(prompt2)
@@ -160,7 +159,7 @@ func (m *serverModel) serve(c *pipe.End, _ *pipe.Link) {
 			g = bytes.ReplaceAll(g, []byte{'\r'}, []byte{'\n'})
 		}
 		m.pause(0)
-		n, err := writeStream(sim, "server", c, Stream{Data: g, Chunks: p.S2C.Chunks, DelayUs: p.S2C.DelayUs})
+		n, err := writeStream(sim, s.r.note, "server", c, Stream{Data: g, Chunks: p.S2C.Chunks, DelayUs: p.S2C.DelayUs})
 		m.sent += n
 		m.wrErr = err
 		<-m.stop
@@ -204,7 +203,7 @@ func (m *serverModel) serve(c *pipe.End, _ *pipe.Link) {
 		}
 		m.callLine = line
 		extra := time.Duration(clampInt(sv.SlowExtraMs, -3600_000, 3600_000)) * time.Millisecond
-		if wait := r.w.startDial + m.spec.timeout + extra - sim.Now(); wait > 0 {
+		if wait := s.w.startDial + m.spec.timeout + extra - sim.Now(); wait > 0 {
 			sleepU(sim, wait)
 		}
 		if !m.write([]byte(prompt2)) {
@@ -249,12 +248,12 @@ func (m *serverModel) serve(c *pipe.End, _ *pipe.Link) {
 		close(m.logged)
 		m.got = append(m.got, m.buf...)
 		m.buf = nil
-		m.rd = startReader(sim, "server", c, p.C2S.ReadBuf, &m.got)
+		m.rd = startReader(sim, s.r.note, "server", c, &Stream{ReadBuf: p.C2S.ReadBuf}, &m.got)
 		if p.Quiet {
-			<-m.both
+			<-s.bothSrv
 			sleepU(sim, us(p.QuietUs)+time.Millisecond)
 		}
-		n, err := writeStream(sim, "server", c, s2c)
+		n, err := writeStream(sim, s.r.note, "server", c, s2c)
 		m.sent += n
 		m.wrErr = err
 		close(m.wrDone)
@@ -265,34 +264,37 @@ func (m *serverModel) serve(c *pipe.End, _ *pipe.Link) {
 // the password line and its payload in the plan's Write calls, either blindly
 // or waiting for the prompts, and keeps its own read-ahead.
 type clientModel struct {
-	r      *run
+	s      *sess
 	cli    *side
-	both   chan struct{}
 	end    *pipe.End
 	rd     *core.GoResult
 	p1, p2 chan struct{}
 }
 
-func newClientModel(r *run, cli *side, both chan struct{}) *clientModel {
-	return &clientModel{r: r, cli: cli, both: both, p1: make(chan struct{}), p2: make(chan struct{})}
+func newClientModel(s *sess) *clientModel {
+	return &clientModel{s: s, cli: s.cli, p1: make(chan struct{}), p2: make(chan struct{})}
 }
 
 func (m *clientModel) run() {
-	r, sim, p, cli := m.r, m.r.sim, m.r.p, m.cli
+	s, r, sim, p, cli := m.s, m.s.r, m.s.r.sim, m.s.sp, m.cli
 	sleepU(sim, us(p.DialDelayUs))
 	cli.startAt = sim.Now()
+	r.noteDial(s.k)
 	c, err := r.n.Dial(context.Background(), srvAddr)
 	if err != nil {
 		cli.loginReturned(sim, nil, err)
 		return
 	}
 	m.end = c
+	if d := s.resumeAt - sim.Now(); d > 0 {
+		time.Sleep(d) // whatever the connect woke runs first (see OnLink)
+	}
 	m.rd = core.Go(m.reader)
 	cli.rd = m.rd
 
 	payload := clip(p.C2S.Data)
-	data := append([]byte(r.call+"\r"+r.pass+"\r"), payload...)
-	l1, l := r.w.l1, r.w.l
+	data := append([]byte(s.call+"\r"+s.pass+"\r"), payload...)
+	l1, l := s.w.l1, s.w.l
 	cutSet := map[int]bool{}
 	for _, x := range p.Client.Cuts {
 		if x > 0 && x < len(data) {
@@ -327,7 +329,7 @@ func (m *clientModel) run() {
 				signalled = true
 				cli.loginReturned(sim, nil, nil)
 			}
-			<-m.both
+			<-s.bothCli
 			sleepU(sim, us(p.QuietUs)+time.Millisecond)
 		}
 		if d := us(core.TapeAt(p.Client.DelayUs, i, 0)); d > 0 {
@@ -339,7 +341,7 @@ func (m *clientModel) run() {
 		}
 		if err != nil {
 			cli.wrErr = err
-			sim.Logf("client model write failed at %d", a+n)
+			sim.Logf("%s model write failed at %d", cli.name, a+n)
 			break
 		}
 		a = b
@@ -351,7 +353,7 @@ func (m *clientModel) run() {
 	if !signalled {
 		cli.loginReturned(sim, nil, cli.wrErr)
 	}
-	sim.Logf("client model wrote %d bytes", a)
+	sim.Logf("%s model wrote %d bytes", cli.name, a)
 }
 
 func closeOnce(c chan struct{}) {
@@ -368,7 +370,7 @@ func closeOnce(c chan struct{}) {
 func (m *clientModel) reader() {
 	defer closeOnce(m.p2)
 	defer closeOnce(m.p1)
-	bufs := m.r.p.S2C.ReadBuf
+	bufs := m.s.sp.S2C.ReadBuf
 	var buf []byte
 	state := 0
 	for i := 0; ; i++ {
@@ -399,7 +401,7 @@ func (m *clientModel) reader() {
 			buf = nil
 		}
 		if err != nil {
-			m.r.sim.Logf("client model reader ends after %d bytes", len(m.cli.got))
+			m.s.r.sim.Logf("%s model reader ends after %d bytes", m.cli.name, len(m.cli.got))
 			return
 		}
 	}
